@@ -111,6 +111,14 @@ pub fn drive<F: Future>(fut: F, polls: &mut usize) -> F::Output {
     }
 }
 
+pub const ELSEWHERE: &str = "ctx-elsewhere";
+
+/// drive a future under a local span of the harness (a place other than the call site)
+pub fn drive_elsewhere<F: Future>(fut: F, polls: &mut usize) -> F::Output {
+    let _l = fastrace::local::LocalSpan::enter_with_local_parent(ELSEWHERE);
+    drive(fut, polls)
+}
+
 #[derive(Clone, Debug, serde::Serialize, serde::Deserialize)]
 pub struct Inputs {
     pub ints: [i64; 4],
